@@ -742,6 +742,22 @@ def decoded(fn):
     return fn()
 
 
+def owned(packfn):
+    """pack() of the object under test, with the caller doing what callers do with the returned buffer: it is extended and
+    overwritten in place (e.g. to append a payload), then the object is packed again.  The second result is returned; it is
+    the first one unless the object handed out a buffer it still uses itself."""
+    first = packfn()
+    keep = bytes(first)
+    if isinstance(first, bytearray):
+        first.extend(b"\xa5\x5a\xa5")
+        for i in range(min(len(keep), 16)):
+            first[i] ^= 0xFF
+    second = packfn()
+    if bytes(second) == keep:
+        return second
+    return bytearray(b"\xee" + bytes(second))       # differs from the expectation: the mismatch names the octets
+
+
 _LIVE = []
 _FLIP = bytes(i ^ 0xFF for i in range(256))
 
